@@ -3,6 +3,7 @@ A module that exposes a useful method (`timeout`) that can execute a
 function asynchronously and terminiate if it exceeds a given `duration`.
 """
 
+import os
 import sys
 import time
 
@@ -14,6 +15,18 @@ try:
     import ctypes
 except BaseException:
     ctypes = None
+
+
+# Verification hook (inactive unless PEDAL_EDU_PEDAL_VERIF=1): a checker installs a callback in
+# `_VERIF_SYNC` and is called at the points where the waiting thread and the abandoned worker
+# touch shared sandbox state, so that each ordering of the two threads can be forced.
+_VERIF_ENABLED = os.environ.get('PEDAL_EDU_PEDAL_VERIF') == '1'
+_VERIF_SYNC = None
+
+
+def _verif_sync(point):
+    if _VERIF_ENABLED and _VERIF_SYNC is not None:
+        _VERIF_SYNC(point)
 
 
 class InterruptableThread(threading.Thread):
@@ -98,6 +111,7 @@ def timeout(duration, func, *args, **kwargs):
 
     if target_thread.is_alive():
         target_thread.terminate()
+        _verif_sync('after_terminate')
         timeout_exception = TimeoutError('Your code took too long to run '
                                          '(it was given {} seconds); '
                                          'maybe you have an infinite loop?'.format(duration))
